@@ -460,6 +460,7 @@ def rewrite_item_text(src, S, log, sites, is_fn=True, outline=None):
     src = rules.rewrite_format(src, log)
     src = rules.closure_param_patterns(src, log)
     src = rules.adapter_chains(src, log)
+    src = rules.split_headers(src, log)
     src = rules.loop_headers(src, log)
     return src
 
@@ -603,13 +604,6 @@ def build(repo, contracts_dir, out_dir, vacuity=False, only=None):
             txt = raw
             if parent is not None and parent.kind == "impl" and not re.search(r"\bfor\b", hdr):
                 txt = rules.lower_visibility(txt)
-            txt = rewrite_item_text(txt, S, flog, sites, outline=cfg.get("outline_macros"))
-            txt = txt.replace("engine::", "") if toks is S.ltoks else txt
-            for (a, b) in cfg.get("text_subst", {}).get(p, []):
-                if a not in txt:
-                    raise ExtractError("%s: text_subst source not found: %r" % (p, a))
-                txt = txt.replace(a, b)
-                flog.append({"rule": "R7", "subst": [a, b]})
             for rs in cfg.get("region_subst", {}).get(p, []):
                 tt = tokenize(txt)
                 (a0, _b0) = find_anchor(tt, rs["from"], 1)[0]
@@ -619,6 +613,13 @@ def build(repo, contracts_dir, out_dir, vacuity=False, only=None):
                 txt = text(tt, 0, a0) + rs["with"] + text(tt, a0 + a1, len(tt))
                 flog.append({"rule": rs["rule"], "region_dropped_sha256": hashlib.sha256(dropped.encode()).hexdigest(),
                              "region_lines": dropped.count("\n") + 1, "replaced_with": rs["with"].strip()})
+            txt = rewrite_item_text(txt, S, flog, sites, outline=cfg.get("outline_macros"))
+            txt = txt.replace("engine::", "") if toks is S.ltoks else txt
+            for (a, b) in cfg.get("text_subst", {}).get(p, []):
+                if a not in txt:
+                    raise ExtractError("%s: text_subst source not found: %r" % (p, a))
+                txt = txt.replace(a, b)
+                flog.append({"rule": "R7", "subst": [a, b]})
             sp = specs.get(p) or FnSpec(p, "-")
             for a in sp.attrs:
                 W.emit("    " + a + "\n")
